@@ -93,3 +93,8 @@ class Driver:
 
     def __exit__(self, *a):
         self.close()
+
+
+def replay_env(case):
+    """The environment a recorded case was observed under (shards that run with a trace-level logger installed)."""
+    return {"RUST_LOG": "anything=trace"} if isinstance(case, dict) and case.get("trace_logging") else None
